@@ -1,7 +1,7 @@
 (* Props/C10.v -- property theorems only *)
 From Coq Require Import ZArith List NArith.
 From Falcon Require Import Base.Res IL.Const IL.Expr IL.Func IL.Loc Exec.Sem SSA.SemSSA SSA.FuncEq SSA.SsaCheck
-     SSA.SsaSound SSA.SsaModel SSA.SsaSmall SSA.C10Check.
+     SSA.SsaSound SSA.SsaModel SSA.SsaTotal SSA.SsaFresh SSA.SsaComplete SSA.C10Check.
 Import ListNotations.
 Local Open Scope Z_scope.
 
@@ -45,13 +45,47 @@ Theorem ssa_operands_agree : forall f' ty a b, item_sim f' ty a b ->
 Proof. exact SsaSound.item_operands_agree. Qed.
 Print Assumptions ssa_operands_agree.
 
-(* [F] small-scope completeness of the MODEL of the algorithm: all 74 676 functions of the family
-   (1-3 blocks, one operation of a 6-element alphabet per block, any <= 2 successors per block). *)
-Theorem ssa_model_passes_small : forall n ops outs, (1 <= n <= 3)%nat ->
-  In ops (lists_of n alphabet) -> In outs (lists_of n (out_choices n)) ->
-  exists f', ssa_model (mk_fun ops outs) = Ok f' /\ ssa_check (mk_fun ops outs) f' = true.
-Proof. exact SsaSmall.ssa_model_passes_small. Qed.
-Print Assumptions ssa_model_passes_small.
+(* [F] `ssa_model_passes_small` (74 676 enumerated functions) lives in SSA/SsaSmall.v, outside this file's
+   dependency cone: several CPU-minutes of vm_compute, built by `bin/vcheck C10 --tier thorough`
+   (PROP["coq_targets_thorough"]); its `Print Assumptions` is at the end of that file. *)
+
+(* ================= round 2: the MODEL of the algorithm (SsaModel.ssa_model, tied to the Rust code [D]) ======= *)
+
+(* [U] totality, conditional on C11's hypothesis `semi_nca_ok` (the model of Semi-NCA returns the immediate-
+   dominator relation of the function's graph: checked per output by C11 [V], proved for <= 4 vertices [F]):
+   on every function with an entry and cfg_inv the model returns Ok -- no Err, no Panic, no fuel exhaustion *)
+Theorem ssa_total_partial : forall f e,
+  cfg_inv (f_cfg f) = true -> g_entry (f_cfg f) = Some e -> semi_nca_ok (f_cfg f) ->
+  exists f', ssa_model f = Ok f' /\ erase_func f' = erase_func f.
+Proof. exact SsaTotal.ssa_total_partial. Qed.
+Print Assumptions ssa_total_partial.
+
+(* [U] unconditional: whatever the model returns differs from its input only in ssa fields and phi nodes *)
+Theorem ssa_model_erase : forall f f', ssa_model f = Ok f' -> erase_func f' = erase_func f.
+Proof. exact SsaFresh.ssa_model_erase. Qed.
+Print Assumptions ssa_model_erase.
+
+(* [U] unconditional: if the input carries no versions, the versioned definitions of the output are pairwise
+   distinct (versions are fresh by construction of ScalarVersioning) *)
+Theorem ssa_model_single_def : forall f f', ssa_model f = Ok f' ->
+  (forall s, In s (all_defs f) -> sssa s = None) -> NoDup (def_keys f').
+Proof. exact SsaFresh.ssa_model_single_def. Qed.
+Print Assumptions ssa_model_single_def.
+
+(* completeness.  NOT proved:  ssa_correct_full :=
+     forall f e, cfg_inv (f_cfg f) = true -> g_entry (f_cfg f) = Some e -> erase_func f = f ->
+     exists f', ssa_model f = Ok f' /\ ssa_check f f' = true.
+   Proved [U] (under semi_nca_ok): the model returns Ok f' and ssa_check f f' = remaining f', where
+   `remaining` = (every versioned use is defined) && (local consistency of the inferred typing: block_ok,
+   edge_check, entry_ok) && (phi arity); conditions (1), struct_ok and the uniqueness half of (2) hold. *)
+Theorem ssa_correct_partial : forall f e,
+  cfg_inv (f_cfg f) = true -> g_entry (f_cfg f) = Some e -> erase_func f = f -> semi_nca_ok (f_cfg f) ->
+  exists f', ssa_model f = Ok f' /\
+             erase_func f' = f /\ func_eqb (erase_func f') f = true /\ struct_ok f' = true /\
+             NoDup (map skey_of (filter versioned (all_defs f'))) /\
+             ssa_check f f' = remaining f'.
+Proof. exact SsaComplete.ssa_correct_partial. Qed.
+Print Assumptions ssa_correct_partial.
 
 (* ---- the hypotheses are satisfiable; the validator is not vacuous ---- *)
 Definition sx (v : option N) := mks 0%N 32 v.
@@ -108,3 +142,12 @@ Proof. vm_compute. split; reflexivity. Qed.
 Example guard_only_fixed_output_accepted :
   ssa_check kf_f kf_f'_fixed = true /\ run_agree kf_f kf_f'_fixed 8 kf_state = true.
 Proof. vm_compute. split; reflexivity. Qed.
+
+(* semi_nca_ok is satisfiable (here by computation), so ssa_total_partial applies *)
+Example semi_nca_ok_ex : semi_nca_ok (f_cfg ex_f).
+Proof.
+  intros gr e Hg He. vm_compute in He. injection He as <-. vm_compute in Hg. injection Hg as <-.
+  eexists. split; vm_compute; reflexivity.
+Qed.
+Example ssa_total_ex : exists f', ssa_model ex_f = Ok f' /\ erase_func f' = erase_func ex_f.
+Proof. apply (SsaTotal.ssa_total_partial ex_f 0); [vm_compute; reflexivity|reflexivity|exact semi_nca_ok_ex]. Qed.
